@@ -412,10 +412,32 @@ func (c *Checker) determinismSpot(p runPlan, n int) error {
 		c.agg.DetPairs++
 		if ja, jd := journalKey(a), journalKey(d); ja != jd {
 			c.agg.DetMismatch++
+			if resultKey(a) == resultKey(d) {
+				// the same results, another step count: the code under test consults something the simulator does not
+				// own (e.g. it ranges over a Go map and leaves early). Replays may then need several attempts.
+				c.note(fmt.Sprintf("NOTE run %d of %s: results reproduce, the step count does not", i, p.Label))
+				continue
+			}
 			return fmt.Errorf("run %d of %s is not reproducible:\n%s\nvs\n%s", i, p.Label, tail(ja, 600), tail(jd, 600))
 		}
 	}
 	return nil
+}
+
+// resultKey is the journal without schedule information: operations and their results.
+func resultKey(rr *RunResult) string {
+	var ks []string
+	for _, e := range rr.Ends {
+		ks = append(ks, fmt.Sprintf("%d:%d:%s:%s", e.Slot, e.Op, e.Cls, e.D))
+	}
+	sort.Strings(ks)
+	for _, v := range rr.Viols {
+		ks = append(ks, "V:"+v.Sig)
+	}
+	if rr.Crashed {
+		ks = append(ks, "CRASHED")
+	}
+	return strings.Join(ks, ";")
 }
 
 // journalKey is the canonical event log: operations, digests and the schedule hash.
